@@ -49,8 +49,15 @@ def gen(rng, tier):
         rest = gens.mutate_conventional(rng) if rng.random() < 0.7 else b""
         if rng.random() < 0.2: rest = None                      # the offending line is the last one and has no newline
         content = e["bytes"] + bad + (b"\n" + rest if rest is not None else b"")
-        s = Scenario([gens.parse_cmd(0, b"/e/bad.conf", content, dl, cm), "dump 0", "groups 0"], tags=(kind,))
-        s.want = "rc=%d line=%d file=%s" % (CODES[kind], len(ls) + 1, enc(b"/e/bad.conf"))
+        # the file's own path is part of what is reported: short, and in a tenth of the cases deep (250 ... 4000 bytes)
+        fpath = b"/e/bad.conf"
+        if rng.random() < 0.1:
+            total = rng.choice([250, 255, 256, 257, 300, 1000, 4000])
+            fpath = b"/e"
+            while len(fpath) + 10 < total: fpath += b"/" + b"d" * min(200, total - len(fpath) - 10)
+            fpath += b"/bad.conf"
+        s = Scenario([gens.parse_cmd(0, fpath, content, dl, cm), "dump 0", "groups 0"], tags=(kind,))
+        s.want = "rc=%d line=%d file=%s" % (CODES[kind], len(ls) + 1, enc(fpath))
         out.append(s)
     # the malformed file as the n-th file of a layered read, with and without the per-object parser options
     for _ in range(n // 2):
